@@ -44,6 +44,7 @@ type C20Case struct {
 	Source string              `json:"source"` // informational: Source(Tree)
 	Inc    map[string][]*TNode `json:"inc,omitempty"`
 	EP     int                 `json:"entry_point"`
+	StrW   bool                `json:"string_writer,omitempty"` // the writer also implements io.StringWriter
 	// the failing execution (set on violations)
 	K      int  `json:"k"`
 	Accept int  `json:"accept"`
@@ -66,6 +67,7 @@ func genC20(r *Rng) *C20Case {
 	cs.Tree = g.Template(cs.Env)
 	cs.Source = Source(cs.Tree)
 	cs.EP = pick(r, []int{EPFRender, EPFRender, EPParseAndFRender})
+	cs.StrW = r.Chance(0.3)
 	return cs
 }
 
@@ -118,6 +120,9 @@ func c20Setup(cs *C20Case) (*c20Exec, Res) {
 func (x *c20Exec) run(w *FaultWriter) Res {
 	simrt.SetMapOrder(simrt.OrderAsc, 0)
 	simrt.SetClock(time.Unix(1700000000, 0).UTC())
+	if x.cs.StrW {
+		return Run(x.cs.EP, x.eng, x.tpl, x.src, x.b, FaultStringWriter{w})
+	}
 	return Run(x.cs.EP, x.eng, x.tpl, x.src, x.b, w)
 }
 
